@@ -110,6 +110,46 @@ Fixpoint wmatch (m n : str) : bool :=
   end.
 Definition dos_name_matches (name mask : str) : bool := wmatch (upper mask) (upper name).
 
+(* --- the regular expression dos_name_matches actually builds ---
+   regexp = b'\A' + (b'.' for ?, b'.*' for *, re.escape(c) otherwise, over mask.upper()) + b'\Z',
+   re.compile(regexp).match(name.upper()).  `regex` is the abstract syntax of that pattern, `rmatch` the
+   standard language semantics of regular expressions (whole-string match: the pattern is anchored by \A \Z;
+   `.` is any character but newline: no DOTALL), `mask_pattern` the pattern text, compared with the text the
+   code hands to re.compile by the correspondence. *)
+Inductive regex : Type :=
+| REps
+| RDot                       (* . *)
+| RLit (c : Z)               (* re.escape(c) *)
+| RCat (r s : regex)
+| RStar (r : regex).
+
+Inductive rmatch : regex -> str -> Prop :=
+| MEps : rmatch REps []
+| MDot x : x <> 10 -> rmatch RDot [x]
+| MLit c : rmatch (RLit c) [c]
+| MCat r s a b : rmatch r a -> rmatch s b -> rmatch (RCat r s) (a ++ b)
+| MStar0 r : rmatch (RStar r) []
+| MStarApp r a b : rmatch r a -> rmatch (RStar r) b -> rmatch (RStar r) (a ++ b).
+
+Definition regex_of_char (c : Z) : regex :=
+  if c =? 63 then RDot else if c =? 42 then RStar RDot else RLit c.
+Definition regex_of_mask (mask : str) : regex :=
+  fold_right (fun c r => RCat (regex_of_char c) r) REps (upper mask).
+
+(* re.escape on one byte (CPython 3.7+): backslash before ()[]{}?*+-|^$\.&~# and ASCII whitespace *)
+Definition re_special : list Z :=
+  [40; 41; 91; 93; 123; 125; 63; 42; 43; 45; 124; 94; 36; 92; 46; 38; 126; 35; 32; 9; 10; 13; 11; 12].
+Definition re_escape (c : Z) : str := if mem c re_special then [92; c] else [c].
+Fixpoint render (r : regex) : str :=
+  match r with
+  | REps => []
+  | RDot => [46]
+  | RLit c => re_escape c
+  | RCat a b => render a ++ render b
+  | RStar a => render a ++ [42]
+  end.
+Definition mask_pattern (mask : str) : str := [92; 65] ++ render (regex_of_mask mask) ++ [92; 90].
+
 (* does (trunk, ext) match the two halves of a mask *)
 Definition dos_mask_matches (mask : str) (te : str * str) : bool :=
   let '(tm, em) := dos_splitext mask in
